@@ -69,6 +69,31 @@ def replay_state(st):
                     bad.append(("C16.sphere-roundtrip", dict(layout=lname, **where0), Xl.tolist(), Zg.tolist() if Zg.shape == Xl.shape else list(Zg.shape), None))
         except Exception as ex:
             bad.append(("C16.no-error", dict(exc=type(ex).__name__, layout=True, **where0), None, repr(ex)[:200], None))
+        # points whose trailing coordinates are at round-off level (built from angles that are exactly pi / 0 / pi/2 in
+        # floating point: sin(pi) = 1.2e-16): angles must stay finite and in range, and the round trip must hold
+        if d >= 3:
+            try:
+                rows = []
+                for k in range(d - 1):
+                    ang = np.full(d - 1, np.pi / 3)
+                    ang[k] = np.pi
+                    rows.append(np.concatenate([[2.0], ang]))
+                    ang2 = np.full(d - 1, np.pi / 2)
+                    ang2[k] = 0.0
+                    rows.append(np.concatenate([[3.0], ang2]))
+                rows.append(np.array([1.0] + [1e-10] * (d - 1)))
+                Yn = np.array(rows[:-1])
+                Xn = np.vstack([np.asarray(dreye.spherical_to_cartesian(Yn.copy()), float), rows[-1][None, :]])
+                Y2 = np.asarray(dreye.cartesian_to_spherical(Xn.copy()), float)
+                X2 = np.asarray(dreye.spherical_to_cartesian(Y2.copy()), float)
+                hi = np.full(d, np.pi)
+                hi[0], hi[-1] = np.inf, 2 * np.pi
+                if not np.all(np.isfinite(Y2)) or np.any(Y2 < 0) or np.any(Y2 > hi + 1e-12):
+                    bad.append(("C16.sphere-values", dict(what="finite / range at round-off level", **where0), None, Y2.tolist(), None))
+                elif np.max(np.abs(X2 - Xn)) > 1e-7 * 3.0:
+                    bad.append(("C16.sphere-roundtrip", dict(roundoff_level=True, **where0), Xn.tolist(), X2.tolist(), None))
+            except Exception as ex:
+                bad.append(("C16.no-error", dict(exc=type(ex).__name__, roundoff_level=True, **where0), None, repr(ex)[:200], None))
         return bad
     # barycentric
     n = st["n"]
